@@ -80,7 +80,7 @@ theorem quotaInv_step (hist : List Ev) (s : S) (e : Ev) (s' : S) (I : QuotaInv h
         have hdecl : wireOf (hist ++ [Ev.pk (.publish op q pid dup body)]) =
             if s.connected then { connected := s.connected, rm := s.limit, inflight := addWire s.wire pid } else { connected := s.connected, rm := s.limit, inflight := s.wire } := by
           rw [wireOf_snoc, I.decl]; simp only [wireStep]
-        rcases account_spec ha with ⟨hc, rfl⟩ | ⟨hc, hm, rfl⟩ | ⟨hc, hm, hq, rfl⟩
+        rcases account_spec ha with ⟨hc, rfl⟩ | ⟨hc, _, hm, rfl⟩ | ⟨hc, _, hm, hq, rfl⟩
         · rw [f4] at hc
           refine ⟨f8 ▸ I.wnd, f7 ▸ I.hnd, by rw [f8, f7]; exact I.sub, by rw [f7, f6, f5]; exact I.bal, ?_, by rw [f8, f4]; exact I.off⟩
           rw [hdecl, f4, f5, f8]; simp [hc]
@@ -180,5 +180,110 @@ theorem receive_maximum_respected {tr : List Ev} (hacc : accepts tr = true) (pre
   have := nodup_subset_length I.wnd I.sub
   have := I.bal
   omega
+
+/-! ### order of PUBLISH packets on a connection (C06) -/
+
+
+theorem request_lastPub {s s' : S} {op pid : Nat} {k : Kind} {dup : Bool} {body : Nat} (h : request s op pid k dup body = some s') :
+    s'.lastPub = s.lastPub ∧ s'.connected = s.connected := by
+  obtain ⟨_, _, n, _, hc | ⟨sl, _, _, _, _, _, rfl⟩⟩ := request_spec h
+  · obtain ⟨_, _, _, rfl⟩ := hc; exact ⟨rfl, rfl⟩
+  · exact ⟨rfl, rfl⟩
+
+/-- order of the PUBLISH packets of the current connection -/
+structure OrderInv (hist : List Ev) (s : S) : Prop where
+  conn : (hist.foldl pubsStep (false, [])).1 = s.connected
+  le : ∀ x ∈ (hist.foldl pubsStep (false, [])).2, x ≤ s.lastPub
+  sorted : (hist.foldl pubsStep (false, [])).2.Pairwise (· < ·)
+
+theorem order_keep {hist : List Ev} {s s' : S} {e : Ev} (I : OrderInv hist s) (h1 : s'.connected = s.connected) (h2 : s'.lastPub = s.lastPub)
+    (he : ∀ st, pubsStep st e = st) : OrderInv (hist ++ [e]) s' := by
+  refine ⟨?_, ?_, ?_⟩ <;> simp only [List.foldl_append, List.foldl_cons, List.foldl_nil, he, h1, h2]
+  · exact I.conn
+  · exact I.le
+  · exact I.sorted
+
+theorem orderInv_step (hist : List Ev) (s : S) (e : Ev) (s' : S) (I : OrderInv hist s) (h : step s e = some s') : OrderInv (hist ++ [e]) s' := by
+  cases e with
+  | init op k n =>
+    simp only [step] at h; split at h
+    · simp at h
+    · simp only [Option.some.injEq] at h; subst h; exact order_keep I rfl rfl (fun _ => rfl)
+  | connUp rm =>
+    simp only [step, Option.some.injEq] at h; subst h
+    refine ⟨?_, ?_, ?_⟩ <;> simp [List.foldl_append, pubsStep]
+  | connDown =>
+    simp only [step, Option.some.injEq] at h; subst h
+    refine ⟨?_, ?_, ?_⟩ <;> simp [List.foldl_append, pubsStep]
+  | wr =>
+    simp only [step] at h; split at h
+    · simp at h
+    · simp only [Option.some.injEq] at h; subst h; exact order_keep I rfl rfl (fun _ => rfl)
+  | pk p =>
+    simp only [step] at h; split at h
+    · rcases stepPk_spec h with ⟨op, q, pid, dup, body, k, rfl, _, s1, hr, ha⟩ | ⟨op, pid, body, rfl, hr⟩ | ⟨op, pid, body, rfl, hr⟩ | ⟨pid, sl, rfl, hs, hk, hph, rfl⟩ | ⟨rfl, rfl⟩
+      · obtain ⟨f1, f2⟩ := request_lastPub hr
+        rcases account_spec ha with ⟨hc, rfl⟩ | ⟨hc, hl, _, rfl⟩ | ⟨hc, hl, _, _, rfl⟩
+        · rw [f2] at hc
+          have hst : (hist.foldl pubsStep (false, [])).1 = false := by rw [I.conn, hc]
+          refine ⟨?_, ?_, ?_⟩ <;> simp only [List.foldl_append, List.foldl_cons, List.foldl_nil, pubsStep, hst, f1, f2]
+          · exact hst.trans hc.symm
+          · exact I.le
+          · exact I.sorted
+        all_goals
+          rw [f2] at hc; rw [f1] at hl
+          have hst : (hist.foldl pubsStep (false, [])).1 = true := by rw [I.conn, hc]
+          refine ⟨?_, ?_, ?_⟩ <;> simp only [List.foldl_append, List.foldl_cons, List.foldl_nil, pubsStep, hst, if_true]
+          · simp [f2, hc]
+          · intro x hx; simp only [List.mem_append, List.mem_singleton] at hx
+            rcases hx with hx | rfl
+            · have := I.le x hx; omega
+            · exact Nat.le_refl _
+          · rw [List.pairwise_append]
+            refine ⟨I.sorted, by simp, ?_⟩
+            intro a hmem b hb; simp only [List.mem_singleton] at hb; subst hb
+            have := I.le a hmem; omega
+      · obtain ⟨f1, f2⟩ := request_lastPub hr; exact order_keep I f2 f1 (fun _ => rfl)
+      · obtain ⟨f1, f2⟩ := request_lastPub hr; exact order_keep I f2 f1 (fun _ => rfl)
+      · exact order_keep I rfl rfl (fun _ => rfl)
+      · exact order_keep I rfl rfl (fun _ => rfl)
+    · simp at h
+  | wrOk =>
+    simp only [step] at h; split at h
+    · simp only [Option.some.injEq] at h; subst h; exact order_keep I rfl rfl (fun _ => rfl)
+    · simp at h
+  | wrFail =>
+    simp only [step] at h; split at h
+    · simp only [Option.some.injEq] at h; subst h; exact order_keep I rfl rfl (fun _ => rfl)
+    · simp at h
+  | rx a => simp only [step, Option.some.injEq] at h; subst h; exact order_keep I rfl rfl (fun _ => rfl)
+  | quiescent =>
+    simp only [step] at h; split at h
+    · simp only [Option.some.injEq] at h; subst h; exact order_keep I rfl rfl (fun _ => rfl)
+    · simp at h
+  | doneOk op rcs props =>
+    simp only [step] at h
+    repeat' split at h
+    all_goals first | (simp at h; done) | skip
+    simp only [Option.some.injEq] at h; subst h; exact order_keep I rfl rfl (fun _ => rfl)
+  | doneOther op =>
+    simp only [step] at h
+    repeat' split at h
+    all_goals first | (simp at h; done) | skip
+    all_goals simp only [Option.some.injEq] at h; subst h
+    all_goals exact order_keep I rfl rfl (fun _ => rfl)
+
+theorem orderInv_reach {tr : List Ev} {s : S} (h : run init tr = some s) : OrderInv tr s :=
+  inv_reach OrderInv ⟨rfl, by simp, by simp⟩ orderInv_step tr s h
+
+/-- **C06 on accepted event lists**: after every prefix, the QoS 1/2 PUBLISH packets written on the current connection are in the order in
+which their operations were initiated (operations are numbered in initiation order) — first transmissions and retransmissions alike -/
+theorem publish_order {tr : List Ev} (hacc : accepts tr = true) (pre post : List Ev) (hsplit : tr = pre ++ post) :
+    (pubsOf pre).Pairwise (· < ·) := by
+  obtain ⟨s, hr⟩ := (accepts_iff _).1 hacc
+  rw [hsplit] at hr
+  obtain ⟨s1, hr1, _⟩ := run_prefix hr
+  exact (orderInv_reach hr1).sorted
+
 
 end Mqtt5V.Proofs.Trace
